@@ -406,7 +406,7 @@ def run(c):
             fs_fams = stream_families(c.tier, rng)
             # at the node's real MaxPayloadLength: a seeded sample of the behaviours that carry two or more big frames
             big = [i for i, b in enumerate(fs_behs) if sum(1 for x in b["steps"] if x.startswith(("W max", "W large"))) >= 2]
-            true_idx = sorted(rng.sample(big, min(len(big), 40 if quick else 600)))
+            true_idx = sorted(rng.sample(big, min(len(big), 24 if quick else 600)))
             sizes["a2"] = "framing as a stream %d finished behaviours (every interleaving of <= %d WriteMsg calls over the size classes with the ReadMsg calls, 4 endings) x %d families" % (
                 len(fs_behs), 3 if quick else 4, len(fs_fams))
             inp("stream", "./p2p/v030/", "^TestVerifFrameStream$",
@@ -458,19 +458,15 @@ def run(c):
             inp("blockrecv", "./p2p/", "^TestVerifBlockRecv$",
                 {"transitions": T, "walks": blockrecv_walks(T, 60 if quick else 600, 40, rng), "families": br_fams, "scenarios": scenarios})
         _t("inputs written: " + "; ".join(sizes.values()))
-        # the framing probe measures the heap of the whole process: it runs first, alone; the others run side by side
+        # the framing harness (with its heap probe, which measures its own process) and the stream harness run first, side by
+        # side; then the others side by side
         results = {}
-        rest = []
-        for (name, pkg, run_) in plan:
-            if name == "framing":
-                results[name] = _run_test(exes[pkg], run_, envs[name], cwds[pkg], 3000)
-            else:
-                rest.append((name, pkg, run_))
-        if rest:
-            with concurrent.futures.ThreadPoolExecutor(max_workers=len(rest)) as ex:
-                futs = {name: ex.submit(_run_test, exes[pkg], run_, envs[name], cwds[pkg], 3000) for (name, pkg, run_) in rest}
-                for name, f in futs.items():
-                    results[name] = f.result()
+        for group in ([x for x in plan if x[0] in ("framing", "stream")], [x for x in plan if x[0] not in ("framing", "stream")]):
+            if group:
+                with concurrent.futures.ThreadPoolExecutor(max_workers=len(group)) as ex:
+                    futs = {name: ex.submit(_run_test, exes[pkg], run_, envs[name], cwds[pkg], 3000) for (name, pkg, run_) in group}
+                    for name, f in futs.items():
+                        results[name] = f.result()
     finally:
         for e in exes.values():
             try:
